@@ -43,6 +43,19 @@ class Rec:
     def __hash__(self):
         return hash(self._tag)
 
+    # ordered by size; the answer is 0 / 1, not False / True
+    def __lt__(self, other):
+        return int(self.size < other.size) if isinstance(other, Rec) else NotImplemented
+
+    def __le__(self, other):
+        return int(self.size <= other.size) if isinstance(other, Rec) else NotImplemented
+
+    def __gt__(self, other):
+        return int(self.size > other.size) if isinstance(other, Rec) else NotImplemented
+
+    def __ge__(self, other):
+        return int(self.size >= other.size) if isinstance(other, Rec) else NotImplemented
+
 
 def inv(n):
     return 100 // n
@@ -159,6 +172,14 @@ def render_module(cases):
         closure = [n for n, _ in case["closure"]]
         nesting = case.get("nesting", 0)     # 0: function in a factory, 1: method of a class in the factory, 2: async
         L.append("def make_%d(%s):" % (i, ", ".join(closure)))
+        if closure:
+            # the enclosing scope can re-bind the variables between two calls
+            L.append("    def icv_set(%s):" % ", ".join(n + "_" for n in closure))
+            L.append("        nonlocal %s" % ", ".join(closure))
+            for n in closure:
+                L.append("        %s = %s_" % (n, n))
+        else:
+            L.append("    icv_set = None")
         ind = "    "
         if nesting == 1:
             L.append("    class K:")
@@ -169,7 +190,7 @@ def render_module(cases):
             params = ["self"] + params
         L.append("%s%sdef f(%s):" % (ind, "async " if nesting == 2 else "", ", ".join(params)))
         L.append("%s    return None" % ind)
-        L.append("    return K().f" if nesting == 1 else "    return f")
+        L.append("    return K().f, icv_set" if nesting == 1 else "    return f, icv_set")
         L.append("")
     return "\n".join(L)
 
@@ -353,7 +374,21 @@ def run_case(i, case, mod, plain):
             mod.REPRS[i] = rr
         else:
             mod.REPRS[i] = icontract._globals.aRepr
-        f = getattr(mod, "make_%d" % i)(*[env_closure[n] for n, _ in case["closure"]])
+        warm = case.get("warmup_closure")
+        if warm:
+            # an earlier violation of the same contract, with other values in the enclosing scope
+            f, icv_set = getattr(mod, "make_%d" % i)(*[to_py(v, mod) for _, v in warm])
+            try:
+                r0 = f(*[env_params_all[n] for n in case["func_params"]])
+                if case.get("nesting") == 2:
+                    asyncio.run(r0)
+            except Exception:  # noqa: BLE001
+                pass
+            icv_set(*[env_closure[n] for n, _ in case["closure"]])
+            if rr is not None:
+                del rr.seen[:]
+        else:
+            f, icv_set = getattr(mod, "make_%d" % i)(*[env_closure[n] for n, _ in case["closure"]])
         del LAST[:]
         try:
             if order is not None:
